@@ -40,7 +40,8 @@ fn allocate__complete() {
     std::mem::forget(r);
 }
 
-/// set_creation only changes the creation; new() establishes the invariant
+/// new() establishes the invariant; set_creation changes the creation and NOTHING else, from every counter state
+/// (numbers already handed out are never re-issued because the node re-registered under a creation it had before)
 #[kani::proof]
 fn set_creation_and_new__complete() {
     let c0: u32 = kani::any();
@@ -49,9 +50,13 @@ fn set_creation_and_new__complete() {
     assert!(a.next_id.load(Ordering::Relaxed) == 1);
     assert!(a.next_serial.load(Ordering::Relaxed) == 0);
     assert!(a.creation.load(Ordering::Relaxed) == c0);
+    let id: u32 = kani::any();
+    let serial: u64 = kani::any();
+    a.next_id.store(id, Ordering::Relaxed);
+    a.next_serial.store(serial, Ordering::Relaxed);
     a.set_creation(Creation(c1));
-    assert!(a.next_id.load(Ordering::Relaxed) == 1);
-    assert!(a.next_serial.load(Ordering::Relaxed) == 0);
+    assert!(a.next_id.load(Ordering::Relaxed) == id);
+    assert!(a.next_serial.load(Ordering::Relaxed) == serial);
     assert!(a.creation.load(Ordering::Relaxed) == c1);
     std::mem::forget(a);
 }
